@@ -252,9 +252,17 @@ type vconn struct {
 	mu    sync.Mutex
 	rdl   int64 // virtual read deadline (ms), 0 = none
 	muted int32 // 1: every write to this connection fails (a broken peer the broker has not noticed yet)
+	stall int64 // the next write to this connection blocks for this many (real) milliseconds, once
 }
 
 func (c *vconn) Write(p []byte) (int, error) {
+	if ms := atomic.SwapInt64(&c.stall, 0); ms > 0 {
+		// a peer that stops reading for a while: whoever writes to it is held up, nothing else may be lost meanwhile
+		for left := ms; left > 0; left -= 20 {
+			time.Sleep(20 * time.Millisecond)
+			bump()
+		}
+	}
 	if atomic.LoadInt32(&c.muted) == 1 {
 		bump()
 		return 0, errors.New("injected write failure")
@@ -1113,6 +1121,14 @@ func (b *brokerDomain) step(f []string) string {
 		}
 		atomic.StoreInt32(&c.srv.muted, v)
 		return "ok"
+	case f[0] == "stall" && len(f) == 3:
+		// stall <c> <ms>: the next write of the broker to this connection blocks for <ms> of real time
+		c := cl(f[1])
+		if c == nil || c.srv == nil {
+			return "noclient"
+		}
+		atomic.StoreInt64(&c.srv.stall, int64(atoi(f[2])))
+		return "ok"
 	case f[0] == "burst" && len(f) == 6:
 		// burst <c> <topic> <qos> <first> <n>: n publishes back to back, payload = 16-bit counter from <first>
 		c := cl(f[1])
@@ -1371,11 +1387,14 @@ func (b *brokerDomain) step(f []string) string {
 		return "ok"
 	case f[0] == "pool" && len(f) == 2:
 		// number of identifiers the writer's pool can still hand out (which ones depends on map iteration order)
-		free := 0
+		free, top := 0, 0
 		for _, iv := range wasp.VerifWriterPool(b.nodes[atoi(f[1])].writer).Intervals() {
 			free += int(iv[1] - iv[0])
+			if int(iv[1]) > top {
+				top = int(iv[1])
+			}
 		}
-		return "free=" + strconv.Itoa(free)
+		return "free=" + strconv.Itoa(free) + " top=" + strconv.Itoa(top)
 	case f[0] == "rpc-publish" && len(f) == 4:
 		// DistributeMessage RPC on node <n>
 		pl, _ := unhex(f[3])
